@@ -72,7 +72,7 @@ func (fr *frame) get(key ssa.Value) value {
 	case *ssa.Const:
 		return constValue(key)
 	case *ssa.Global:
-		return fr.w.globalAddr(key)
+		return fr.w.globalAddr(key, fr.fn)
 	}
 	if r, ok := fr.env[key]; ok {
 		return r
